@@ -79,6 +79,13 @@ def build_table(R, rng):
     def add(entry, cls, fn, *args):
         cells.append((entry, cls, fn, args))
 
+    def add_ns(entry, call):
+        """Non-square arguments of every kind: wide, tall, single row, single column (the last two broadcast against their own
+        conjugate transpose, so a guard-free comparison A == A^H does not fail by itself)."""
+        for (mm, nn) in ((2, 3), (3, 2), (1, 3), (3, 1), (1, 2), (2, 1), (4, 2)):
+            Ans = _q(rng, mm, nn)
+            cells.append((entry, f"NS:{mm}x{nn}", (lambda Ans=Ans: call(Ans)), (Ans,)))
+
     real = rng.standard_normal((3, 3))
     cplx = rng.standard_normal((3, 3)) + 1j * rng.standard_normal((3, 3))
     integ = rng.integers(-3, 4, size=(3, 3))
@@ -109,10 +116,10 @@ def build_table(R, rng):
     add("real_contract", "SZ:swapped", lambda: U.real_contract(E, 3, 2), E)
     add("real_contract", "SZ:too_small", lambda: U.real_contract(E, 2, 2), E)
     # --- hermitian test, determinants ---------------------------------------------------
-    add("ishermitian", "NS", lambda: U.ishermitian(A23), A23)
+    add_ns("ishermitian", lambda Ans: U.ishermitian(Ans))
     add("ishermitian", "SP", lambda: U.ishermitian(sp33))
-    add("det(Dieudonne)", "NS", lambda: U.det(A23, "Dieudonne"), A23)
-    add("det(Moore)", "NS", lambda: U.det(A23, "Moore"), A23)
+    add_ns("det(Dieudonne)", lambda Ans: U.det(Ans, "Dieudonne"))
+    add_ns("det(Moore)", lambda Ans: U.det(Ans, "Moore"))
     add("det", "OPT:type='LU'", lambda: U.det(A33, "LU"), A33)
     add("det", "OPT:type='moore'", lambda: U.det(_herm(rng, 3), "moore"))
     add("det(Study)", "NotImplemented", lambda: U.det(A33, "Study"), A33)
@@ -136,10 +143,10 @@ def build_table(R, rng):
         for bad in ("both", "Right", "", None, 0):
             add(name, f"OPT:side={bad!r}", lambda f=f, bad=bad: f(A23, side=bad), A23)
     # --- power iteration / adjoint --------------------------------------------------------
-    add("power_iteration", "NS", lambda: U.power_iteration(A23), A23)
+    add_ns("power_iteration", lambda Ans: U.power_iteration(Ans))
     add("power_iteration", "NS:tall", lambda: U.power_iteration(A32, return_eigenvalue=True), A32)
-    add("power_iteration_nonhermitian", "NS", lambda: U.power_iteration_nonhermitian(A23), A23)
-    add("quaternion_to_complex_adjoint", "NS", lambda: U.quaternion_to_complex_adjoint(A23), A23)
+    add_ns("power_iteration_nonhermitian", lambda Ans: U.power_iteration_nonhermitian(Ans))
+    add_ns("quaternion_to_complex_adjoint", lambda Ans: U.quaternion_to_complex_adjoint(Ans))
     add("quaternion_to_complex_adjoint", "DT:real", lambda: U.quaternion_to_complex_adjoint(real), real)
     add("quaternion_to_complex_adjoint", "DT:complex", lambda: U.quaternion_to_complex_adjoint(cplx), cplx)
     add("quaternion_to_complex_adjoint", "OPT:axis='y'", lambda: U.quaternion_to_complex_adjoint(A33, axis="y"), A33)
@@ -184,7 +191,7 @@ def build_table(R, rng):
     # --- Hermitian eigen / tridiagonal -------------------------------------------------------------------
     for name in ("quaternion_eigendecomposition", "quaternion_eigenvalues", "quaternion_eigenvectors"):
         f = getattr(D, name)
-        add(name, "NS", lambda f=f: f(A23), A23)
+        add_ns(name, lambda Ans, f=f: f(Ans))
         for mg in (1e-2, 1.0):
             NH = _non_herm(rng, 3, mg)
             add(name, f"NH:{mg}", lambda f=f, NH=NH: f(NH), NH)
@@ -192,7 +199,7 @@ def build_table(R, rng):
             for lab, NH in _non_herm_structured(rng, nn).items():
                 add(name, f"NH:{lab}:n={nn}", lambda f=f, NH=NH: f(NH), NH)
         add(name, "SP", lambda f=f: f(R.sparse_from_dense(_herm(rng, 3))))
-    add("tridiagonalize", "NS", lambda: D.tridiagonalize(A23), A23)
+    add_ns("tridiagonalize", lambda Ans: D.tridiagonalize(Ans))
     for mg in (1e-2, 1.0):
         NH = _non_herm(rng, 4, mg)
         add("tridiagonalize", f"NH:{mg}", lambda NH=NH: D.tridiagonalize(NH), NH)
@@ -208,7 +215,7 @@ def build_table(R, rng):
     add("householder_matrix", "SZ", lambda: TR.householder_matrix(a3, np.array([1.0, 0.0, 0.0, 0.0])), a3)
     # --- Hessenberg / Schur ----------------------------------------------------------------------------------
     HZ = R.hessenberg
-    add("hessenbergize", "NS", lambda: HZ.hessenbergize(A23), A23)
+    add_ns("hessenbergize", lambda Ans: HZ.hessenbergize(Ans))
     add("hessenbergize", "TN:order1", lambda: HZ.hessenbergize(v1), v1)
     add("hessenbergize", "TN:order3", lambda: HZ.hessenbergize(T3), T3)
     add("hessenbergize", "SP", lambda: HZ.hessenbergize(sp33))
@@ -222,7 +229,7 @@ def build_table(R, rng):
     }
     for name, (optname, bads) in schur_opts.items():
         f = getattr(SC, name)
-        add(name, "NS", lambda f=f: f(A23, max_iter=5), A23)
+        add_ns(name, lambda Ans, f=f: f(Ans, max_iter=5))
         add(name, "NS:tall", lambda f=f: f(A32, max_iter=5), A32)
         add(name, "TN:order3", lambda f=f: f(T3, max_iter=5), T3)
         add(name, "SP", lambda f=f: f(sp33, max_iter=5))
